@@ -17,13 +17,19 @@ def time_limit(seconds):
     def handler(signum, frame):
         raise Horizon("no result within %.1fs" % seconds)
 
-    old = signal.signal(signal.SIGALRM, handler)
-    signal.setitimer(signal.ITIMER_REAL, seconds)
+    # the horizon is measured in CPU time of this process (ITIMER_PROF), so that a saturated machine cannot turn a slow but terminating
+    # call into a reported non-termination; a generous wall-clock timer (20 x) remains as a backstop for calls that block without computing
+    old_prof = signal.signal(signal.SIGPROF, handler)
+    old_alrm = signal.signal(signal.SIGALRM, handler)
+    signal.setitimer(signal.ITIMER_PROF, seconds)
+    signal.setitimer(signal.ITIMER_REAL, 20 * seconds)
     try:
         yield
     finally:
+        signal.setitimer(signal.ITIMER_PROF, 0)
         signal.setitimer(signal.ITIMER_REAL, 0)
-        signal.signal(signal.SIGALRM, old)
+        signal.signal(signal.SIGPROF, old_prof)
+        signal.signal(signal.SIGALRM, old_alrm)
 
 
 def chunks(seq, n):
